@@ -327,6 +327,18 @@ def rules(ctx: Ctx) -> None:
             ctx.ob("R15.3", f"{mname}:store-in-loop-with-failing-conversion", not (inner and in_loop), f"{m.mod.path}:{cn.lineno}",
                    "a store executed once per key together with a conversion that can fail leaves earlier keys stored when a later one is rejected")
 
+    # an open scope is never written into: __call__ stores overrides only once it knows that this thread has no scope open (a nested attempt is
+    # refused by __enter__ too, but by then the outer scope's values would already be overwritten)
+    call_m2 = c.methods["__call__"]
+    cfl = flow(prog, call_m2)
+    set_kinds = [nm for nm, kind in containers.items() if kind == "set"]
+    for s_ in stores_by_fn.get(call_m2.qual, []):
+        facts = set(cfl.facts_for(s_))
+        guarded = any((not p_) and any(t_.endswith(f" in self.{sn}") or t_.endswith(f" in {inst}.{sn}") for sn in set_kinds) for t_, p_ in facts) \
+            or any(p_ and any(f" not in self.{sn}" in t_ for sn in set_kinds) for t_, p_ in facts)
+        ctx.ob("R15.3", "__call__:open-scope-is-not-written-into", guarded, loc(call_m2.mod, s_),
+               f"`{u(prog.enclosing_stmt(s_))[:60]}` must be dominated by the test that this thread has no scope open (membership in the in-scope set is false)")
+
     # ------------------------------------------------------------------------------
     # R15.4 direct assignment refused
     # ------------------------------------------------------------------------------
